@@ -16,6 +16,7 @@ pub fn spec() -> PropSpec {
         rule: "(a) frames of the nine formats built by an independent CRC-24 (AP = CRC xor address / AA field) for enumerated and generated addresses and generated payloads: public get_icao and the row key created by the reader must equal the builder's address, address 0 must leave the table unchanged; (b) generated interleaved histories of 2-4 aircraft over the whole frame alphabet, one reader run per frame on a persistent table, full snapshot (all fields incl. time stamps) before/after. Non-trivial: (a) every (format,address,payload) tuple, distinct by enumeration or hash; (b) steps executed while another aircraft's row already has non-default content, distinct by (frame, table-before) hash",
         assumptions: &["reference CRC-24 = bit-serial division by 0x1FFF409 (checked against published intact frames)", "the HashMap cannot hold two rows under one key, so 'two rows for one address' is checked as row.icao == key for every row"],
         workers: 16,
+        also_nochk: false,
         quick_budget_s: 900,
         thorough_budget_s: 3600,
         min_nontrivial_quick: 100_000,
